@@ -154,6 +154,8 @@ func groupObligations(vs []Verdict) map[string]*Obligation {
 			key = m[1] + "/safe-all:" + m[2]
 		} else if m := waitSiteRe.FindStringSubmatch(name); m != nil {
 			key = m[1] + "/cancellable-all:" + m[2]
+		} else if m := neverLocksRe.FindStringSubmatch(name); m != nil {
+			key = m[1] + "/never-locks:" + m[2]
 		} else if m := disciplineRe.FindStringSubmatch(name); m != nil {
 			// access-discipline obligations are named per field: a function that starts to touch a field it never
 			// touched before gets a new name, which the baseline does not know — the aggregate does
@@ -202,6 +204,7 @@ func groupObligations(vs []Verdict) map[string]*Obligation {
 
 var safeSiteRe = regexp.MustCompile(`^(.*)/safe:([^#]+)#\d+$`)
 var disciplineRe = regexp.MustCompile(`^(.*)/(lockset|own|own-write|alias|alias-in):.+$`)
+var neverLocksRe = regexp.MustCompile(`^(.*)/never-locks:([^@]+)@acq#\d+$`)
 var waitSiteRe = regexp.MustCompile(`^(.*)/cancellable:([^@]+)@wait#\d+$`)
 
 // ---------------------------------------------------------------------------------------------
@@ -311,6 +314,9 @@ func isAutoObligation(name string) bool {
 	}
 	k := name[i+1:]
 	for _, p := range []string{"safe:", "safe-all:", "lockset:", "own:", "order#", "alias:", "alias-in:", "lock-balance:", "bcast-locked#", "cancellable:", "discipline-all"} {
+		if strings.HasPrefix(k, "never-locks:") && strings.Contains(k, "@acq#") {
+			return true
+		}
 		if strings.HasPrefix(k, p) {
 			return true
 		}
